@@ -398,7 +398,14 @@ func (s *Sim) Submit(t *MTx, api int) {
 		_, err = pool.CheckMempoolAcceptance(btx)
 	}
 	postPool, postOrph := s.poolSet(), s.orphanSet()
-	r.Event("submit", "%s tx=%s fee=%d ins=%d -> accepted=%v err=%v pool %d->%d orphans %d->%d", name, t.Hash.String()[:8], t.Fee, len(t.Ins), accepted, err != nil, len(prePool), len(postPool), len(preOrph), len(postOrph))
+	why := ""
+	if err != nil {
+		why = " (" + err.Error() + ")"
+		if len(why) > 90 {
+			why = why[:90] + ")"
+		}
+	}
+	r.Event("submit", "%s tx=%s fee=%d ins=%d -> accepted=%v err=%v%s pool %d->%d orphans %d->%d", name, t.Hash.String()[:8], t.Fee, len(t.Ins), accepted, err != nil, why, len(prePool), len(postPool), len(preOrph), len(postOrph))
 	r.Sig(fmt.Sprintf("s%d:%v:%v", api, accepted, err != nil))
 	if api == 3 {
 		if !sameSet(prePool, postPool) || !sameSet(preOrph, postOrph) {
@@ -421,6 +428,24 @@ func (s *Sim) Submit(t *MTx, api int) {
 		return
 	}
 	s.ps.accepted++
+	// whatever else entered the pool with it was promoted from the orphan
+	// pool, so the orphan pool must have held it (orphan storage is bounded:
+	// an evicted or expired orphan is gone for good)
+	{
+		inPre := map[chainhash.Hash]bool{}
+		for _, h := range prePool {
+			inPre[h] = true
+		}
+		wasOrphan := map[chainhash.Hash]bool{}
+		for _, h := range preOrph {
+			wasOrphan[h] = true
+		}
+		for _, h := range postPool {
+			if !inPre[h] && h != t.Hash && !wasOrphan[h] {
+				r.Violate("C10", "orphan-bounds", "", "accepting %s brought %s into the pool, which was neither pooled nor held as an orphan before: an orphan outside the bounded orphan pool was promoted", t.Hash.String()[:8], h.String()[:8])
+			}
+		}
+	}
 	if wasIn {
 		r.Violate("C10", "duplicate-rejected", "", "transaction %s was already pooled and was accepted again", t.Hash.String()[:8])
 	}
@@ -709,3 +734,96 @@ func (s *Sim) CheckMinable() (*MBlock, []*MTx) {
 }
 
 var _ = txscript.OP_TRUE
+
+// evictionLimitScenario builds two fans of replaceable transactions (a root
+// with many outputs and one child per output) on two confirmed outputs, sized
+// so that together they sit around the limit of 100 evictions, and then
+// submits one replacement that conflicts with both roots.  The replacement
+// accounting of Submit judges the outcome.
+func (s *Sim) evictionLimitScenario() {
+	c := s.r.C
+	w := s.w
+	tip := s.n.Tip()
+	pool := s.n.Pool
+	next := tip.Height + 1
+	var roots []wire.OutPoint
+	for _, op := range w.UniOrder {
+		rec, ok := tip.View[op]
+		if !ok || rec.Kind == KOpReturn || rec.Kind == KP2WPKH || rec.Value < 50_000_000 {
+			continue
+		}
+		if rec.Coinbase && next-rec.Height < w.Net.Maturity {
+			continue
+		}
+		if pool.CheckSpend(op) != nil {
+			continue
+		}
+		roots = append(roots, op)
+		if len(roots) == 2 {
+			break
+		}
+	}
+	if len(roots) < 2 {
+		return
+	}
+	total := 98 + c.Intn(6, "fan-total") // 98..103 transactions to evict
+	a := 1 + c.Intn(total-1, "fan-split")
+	sizes := []int{a, total - a}
+	feeEach := int64(20000)
+	var sum int64
+	for k, op := range roots {
+		rec := tip.View[op]
+		n := sizes[k] - 1 // children
+		p := &txPlan{Version: 2, Ins: []planIn{{Op: op, Rec: rec, Seq: 0xfffffffd}}}
+		left := rec.Value - feeEach - int64(40*n)
+		nout := n
+		if nout == 0 {
+			nout = 1
+		}
+		for i := 0; i < nout; i++ {
+			v := left / int64(nout-i)
+			left -= v
+			p.Outs = append(p.Outs, &wire.TxOut{Value: v, PkScript: w.script(KTrue, 0)})
+		}
+		root := w.makeTx(p)
+		root.Fee = feeEach + int64(40*n)
+		w.addTx(root)
+		s.Submit(root, 1)
+		if !pool.IsTransactionInPool(&root.Hash) {
+			s.r.Probe("fan-root-refused")
+			return
+		}
+		sum += root.Fee
+		for i := 0; i < n; i++ {
+			out := root.Msg.TxOut[i]
+			crec := &utxoRec{Value: out.Value, PkScript: out.PkScript, Height: next, Kind: KTrue}
+			cp := &txPlan{Version: 2, Ins: []planIn{{Op: wire.OutPoint{Hash: root.Hash, Index: uint32(i)}, Rec: crec, Seq: 0xffffffff}},
+				Outs: []*wire.TxOut{{Value: out.Value - feeEach, PkScript: w.script(KP2PKH, 0)}}}
+			ch := w.makeTx(cp)
+			ch.Fee = feeEach
+			w.addTx(ch)
+			s.Submit(ch, 1)
+			if !pool.IsTransactionInPool(&ch.Hash) {
+				s.r.Probe("fan-child-refused")
+				return
+			}
+			sum += feeEach
+		}
+	}
+	s.CheckPool("fan-built")
+	// the replacement: both confirmed outputs, pays for everything it evicts
+	r0, r1 := tip.View[roots[0]], tip.View[roots[1]]
+	fee := sum + 1_000_000 + int64(c.Intn(1000, "fan-fee"))
+	if fee >= r0.Value+r1.Value {
+		return
+	}
+	p := &txPlan{Version: 2, Ins: []planIn{{Op: roots[0], Rec: r0, Seq: 0xfffffffd}, {Op: roots[1], Rec: r1, Seq: 0xfffffffd}},
+		Outs: []*wire.TxOut{{Value: r0.Value + r1.Value - fee, PkScript: w.script(KTrue, 0)}}}
+	t := w.makeTx(p)
+	t.Fee = fee
+	w.addTx(t)
+	s.r.Event("fan-replacement", "clusters %d+%d=%d fee=%d", sizes[0], sizes[1], total, fee)
+	s.r.Probe(fmt.Sprintf("eviction-limit-scenario:%d", total))
+	s.Submit(t, 0)
+	s.CheckPool("fan-replaced")
+}
